@@ -1,9 +1,26 @@
 (* Props/C11.v — the audited surface for property C11 (copies and sibling instances share no mutable state).
    Statements only; every proof is `exact <lemma>`; Print Assumptions under each.
-   The claim is PARTIAL: the heap model (Heap.v) abstracts CPython object semantics. *)
+   The claim is PARTIAL: the heap model (Heap.v) abstracts CPython object semantics.
+
+   HOW TO READ THIS FILE
+   * `copy_M ... = None` models "copy() raises"; a history treats it as a no-op.  The model's copy is defined exactly on the class of
+     objects described by C11_copy_defined (entries = acyclic graphs of lists / dicts / arrays / plain objects, class __init__ runs
+     through).  OUTSIDE it — a container stored in an ordinary attribute (m.other = another_model), linkers of linkers, cyclic
+     graphs — the model is undefined although Python's copy may succeed: the theorems are SILENT there (ASSUMPTIONS in
+     harness/props/C11.py; witness C11_nested_container_outside_the_domain).  C11_defined_history_independent is the history theorem
+     with that domain as an explicit hypothesis; the older history theorems hold with or without it.
+   * The operation theorems (C11_every_operation_is_tight, C11_operations_use_fresh_sources, C11_tracer_class_list_no_leak) are
+     statements about the hand-written table Heap.compile_op, proved by case analysis on it; they say nothing about fsic by
+     themselves.  That a real operation stores no class-owned / caller-owned object by reference is tied to the code ONLY by the
+     correspondence K (id() scan of every pair of roots after every event, trees below every root).
+   * Only K / the oracle, no theorem: which exceptions the real operations raise; the span-equality check between the submodels
+     of a linker (InitialisationError) — linkers are generated with equal spans, a failing construction ends the history on both
+     sides; preservation of tree-likeness / the forest through __init__ and the final __dict__.update of copy().
+   * C11_reindex_is_an_admitted_event only unfolds event_ok (it records that reindex is inside the history theorems); the
+     substantive statement is C11_reindex_disjoint. *)
 From Coq Require Import ZArith List Bool.
 Import ListNotations.
-Require Import PyBase Heap HeapFacts HeapFrame HeapCopy HeapSim HeapHistory HeapOps HeapLinkerSim HeapProtect HeapLinkerCopySim HeapLinkerInit HeapForest HeapForestCopy HeapExamples.
+Require Import PyBase Heap HeapFacts HeapFrame HeapCopy HeapSim HeapHistory HeapOps HeapLinkerSim HeapProtect HeapLinkerCopySim HeapLinkerInit HeapForest HeapForestCopy HeapDefined HeapExamples.
 Open Scope Z_scope.
 
 (* copy.deepcopy creates only new objects: the old heap is a prefix of the new one, the result refers to new objects only *)
@@ -77,6 +94,94 @@ Theorem C11_path_footprint kp R acts h h' ok :
   pinv kp R h -> forallb (act_safe kp) acts = true -> run_actions h R acts = (h', ok) ->
   pinv kp R h' /\ cell_kp kp R h' = cell_kp kp R h /\ (forall x, (x < R)%nat -> nth_error h' x = nth_error h x).
 Proof. exact (actions_safe kp R acts h h' ok). Qed.
+
+(* ---------------- the three routes: distinct entry points, PROVED to be the same function from constants regenerated from the
+   source on every check (Gen/Generated.v: VectorContainer/BaseLinker `__copy__ is copy`; the body of `__deepcopy__` is
+   `return self.copy()`; no other class of the towers defines copy / __copy__ / __deepcopy__ / __reduce__ / __getstate__ ...).
+   Removing `__copy__ = copy` (copy.copy would fall back to object.__reduce_ex__: a new object holding the SAME arrays) or
+   changing `__deepcopy__` flips a constant and these proofs no longer compile *)
+Theorem C11_three_routes_are_copy rt K h r :
+  copy_route rt K h r = (if is_linker h r then linker_copy_M K h r else copy_M K h r).
+Proof. exact (three_routes_are_copy rt K h r). Qed.
+
+(* ... what copy.copy would be without the alias: the "copy" is the original's own cells in a new instance *)
+Theorem C11_copy_copy_without_alias_would_share K h r o :
+  nth_error h r = Some o -> copy_by_route false true true RCopyCopy K h r = Some (h ++ [o], length h).
+Proof. exact (shallow_route_shares K h r o). Qed.
+
+(* ---------------- WHEN the model's copy is defined *)
+(* copy.deepcopy is defined on every value whose unfolding terminates (within the fuel deepcopy uses) and meets only lists, dicts,
+   arrays and plain objects: no VectorContainer-family instance, no class object below it *)
+Theorem C11_deepcopy_defined h v :
+  (exists f2 ls, (f2 <= S (length h))%nat /\ nodes f2 h v = Some ls /\
+                 forall a, In a ls -> exists o, nth_error h a = Some o /\ copyable (okind o) = true) ->
+  exists h' v', deepcopy h v = Some (h', v').
+Proof. exact (deepcopy_defined h v). Qed.
+
+(* VectorContainer.copy (either memo policy) is defined on an instance whose span and whose __dict__ entries are such values and
+   whose class's __init__ runs through on the copied span *)
+Theorem C11_copy_defined K h r o c sp :
+  wf h -> nth_error h r = Some o -> okind o = KCont c -> cell_get (A N_span) (ocells o) = Some sp ->
+  plain_tree h sp -> entries_plain h (ocells o) ->
+  (forall h1 sp', deepcopy h sp = Some (h1, sp') ->
+     snd (init_M h1 c K (default_iargs K (val_src sp') (arr_len h r [V N_status]))) = true) ->
+  exists h' r', copy_M K h r = Some (h', r').
+Proof. exact (copy_M_defined K h r o c sp). Qed.
+
+(* the history theorem with its domain on the surface: every copy / reindex / constructor event is defined where it is applied
+   (history_defined); then each creating event adds exactly one root, roots stay pairwise separate, and every root that receives
+   no operation keeps its sub-heap *)
+Theorem C11_defined_history_independent K es s :
+  roots_ok s -> forallb hevent_ok es = true -> history_defined K s es = true ->
+  roots_ok (run_hevents K s es) /\
+  length (sroots (run_hevents K s es)) = (length (sroots s) + length (filter creates es))%nat /\
+  (exists new, sroots (run_hevents K s es) = sroots s ++ new) /\
+  (forall j rj, nth_error (sroots s) j = Some rj ->
+                (forall e, In e es -> hreceiver e <> Some j) ->
+                same_subheap (sh s) (sh (run_hevents K s es)) rj).
+Proof. exact (defined_history_independent K es s). Qed.
+
+(* ... hypotheses of C11_copy_defined satisfiable (a traced instance after a long operation history) *)
+Theorem C11_copy_defined_example :
+  exists o sp,
+    wf (sh s_fc) /\ nth_error (sh s_fc) 5 = Some o /\ okind o = KCont 4%nat /\ cell_get (A N_span) (ocells o) = Some sp /\
+    plain_tree (sh s_fc) sp /\ entries_plain (sh s_fc) (ocells o) /\
+    (forall h1 sp', deepcopy (sh s_fc) sp = Some (h1, sp') ->
+       snd (init_M h1 4%nat K0 (default_iargs K0 (val_src sp') (arr_len (sh s_fc) 5%nat [V N_status]))) = true).
+Proof. exact ex_copy_defined_hypotheses. Qed.
+
+(* ... and the domain is a real restriction: with a model stored in an ordinary attribute (m.other = another_model) the MODEL's copy
+   is undefined (Python's succeeds): not a defined history; a history with the three routes and operations is *)
+Theorem C11_nested_container_outside_the_domain :
+  copy_M K0 (sh s_nested) 5%nat = None /\ history_defined K0 s_nested [HCopyRoute RDeepCopy 1] = false /\
+  history_defined K0 s_fc [HCopyRoute RCopy 1; HCopyRoute RCopyCopy 1; HCopyRoute RDeepCopy 2; HOps 3 forest_ops] = true.
+Proof. exact ex_nested_container_outside_the_domain. Qed.
+
+(* sibling linkers built on COPIES of the submodels: each linker shares only with its own submodels (roots 2,3 / 4,5), nothing with
+   the other linker *)
+Theorem C11_sibling_linkers_on_copies_example :
+  let s1 := run_hevents K0 s_pre [HCopyRoute RCopy 2; HCopyRoute RDeepCopy 3;
+                                  HEv (ELinkerInit 1 [(601, 2%nat); (603, 3%nat)] 117);
+                                  HEv (ELinkerInit 1 [(601, 4%nat); (603, 5%nat)] 117)] in
+  length (sroots s1) = 8%nat /\
+  filter (fun x => (Nat.eqb (fst (fst x)) 6 && Nat.eqb (snd (fst x)) 7) || (Nat.ltb (fst (fst x)) 4 && Nat.eqb (snd (fst x)) 7 && negb (Nat.leb 4 (fst (fst x)))))
+         (sharing s1) = [] /\
+  map (fun x => fst x) (sharing s1) = [(2, 6); (3, 6); (4, 7); (5, 7)]%nat.
+Proof. exact ex_sibling_linkers_on_copies. Qed.
+
+(* KEPT FINDING (known_findings.d/C11.json, C11|copy*|state-differs|extra-entry-after-class-NAMES-extended): the guard of
+   C11_copy_observationally_equal "every key a fresh instance gets is a key of the original" is needed.  After the class-level NAMES
+   list has been extended (a class mutation the property contemplates), copy() of an OLDER instance runs __init__ of the class as
+   it is now and keeps the extra `_<name>` array: the copy has an entry the original lacks (hasattr(copy, '_Z') vs
+   hasattr(original, '_Z')) — not observationally equal *)
+Theorem C11_copy_after_class_NAMES_extended_refuted :
+  let s := run_events K0 (s0 0 None) [EInit 0 (args range_span)] in
+  let sm := run_hevents K0 s [HOps 0 [OListAppend C_NAMES 209]] in
+  let s1 := run_hevents K0 sm [HEv (ECopy 1)] in
+  forallb (fun k => has_cell (sh s) 5%nat k) (copy_fresh_keys K0 (sh s) 5%nat) = true /\
+  forallb (fun k => has_cell (sh sm) 5%nat k) (copy_fresh_keys K0 (sh sm) 5%nat) = false /\
+  nth 2 (root_views s1 3) CCut <> nth 1 (root_views s1 3) CCut.
+Proof. exact copy_after_class_mutation_has_extra_cell. Qed.
 
 (* footprint_within_reach — any operation (list of non-leaky actions) of a receiver r writes only inside reach h r or into new
    objects, and afterwards reaches only what it reached before or new objects *)
@@ -159,7 +264,7 @@ Theorem C11_siblings_independent K s ci a1 a2 es :
 Proof. exact (siblings_independent K s ci a1 a2 es). Qed.
 
 (* ---------------- the same at the level of fsic OPERATIONS (each compiled against the heap its predecessors left) *)
-(* EVERY modelled public operation - item / series / scalar assignment, add_variable, attribute sets, strict, list and dict
+(* (a statement about the table Heap.compile_op; the tie to fsic is K - see the header)  EVERY modelled public operation - item / series / scalar assignment, add_variable, attribute sets, strict, list and dict
    mutations, solve passes and status writes, trace_t in every mode, linker submodel writes, aliasing an own list under a second
    attribute - brings no class-owned or caller-owned object into its receiver, on ANY heap (no exception any more: since fix
    cfb58ac trace_t gives the Trace a list of its own) *)
@@ -281,7 +386,7 @@ Proof. exact ex_copy_of_traced_model_stays_equal. Qed.
    "copy() drops the alias Trace.names is model.names").  forest N h: every object is referred to from at most one cell of the
    objects at or above N (N = the objects that existed before the first instance: the class region, where CHECK usually IS
    ENDOGENOUS, is left out) *)
-(* every operation except the explicit user aliasing (m.mine = m.names) uses only scalars and freshly created objects as sources,
+(* (a statement about the table Heap.compile_op; the tie to fsic is K)  every operation except the explicit user aliasing (m.mine = m.names) uses only scalars and freshly created objects as sources,
    on any heap - trace_t in every mode included *)
 Theorem C11_operations_use_fresh_sources K h r o :
   (match o with OAliasAttr _ _ => false | _ => true end) = true ->
@@ -433,3 +538,12 @@ Print Assumptions C11_no_internal_alias_example.
 Print Assumptions C11_deepcopy_keeps_forest.
 Print Assumptions C11_copy_entries_keep_forest.
 Print Assumptions C11_copy_entries_example.
+Print Assumptions C11_three_routes_are_copy.
+Print Assumptions C11_copy_copy_without_alias_would_share.
+Print Assumptions C11_deepcopy_defined.
+Print Assumptions C11_copy_defined.
+Print Assumptions C11_defined_history_independent.
+Print Assumptions C11_copy_defined_example.
+Print Assumptions C11_nested_container_outside_the_domain.
+Print Assumptions C11_sibling_linkers_on_copies_example.
+Print Assumptions C11_copy_after_class_NAMES_extended_refuted.
